@@ -170,8 +170,13 @@ def _check_model(model, X, extra, facts, stage=""):
     require(set(app.tolist()) <= set(ref_leaves), "leave_index:apply-not-leaf", "", facts)
     Q64 = Q.astype(np.float64)
     finite = ~np.isnan(Q64).any(axis=1)
+    # the parents of the nodes may be computed once and handed to every call (the documented use of the third argument); the boxes
+    # returned earlier keep their values while later leaves are asked
+    shared = _str.tree_node_parents(model) if facts.get("share_parents") else None
+    returned = []
     for leaf in ref_leaves:
-        R = _str.tree_node_range(model, leaf)
+        R = _str.tree_node_range(model, leaf, shared) if shared is not None else _str.tree_node_range(model, leaf)
+        returned.append((leaf, R, np.array(R, dtype=np.float64, copy=True)))
         R = np.asarray(R, dtype=np.float64)
         require(R.ndim == 2 and R.shape[1] == 2 and R.shape[0] <= X.shape[1], "node_range:shape", "%r" % (R.shape,), facts)
         inbox = np.ones(len(Q), dtype=bool)
@@ -186,12 +191,15 @@ def _check_model(model, X, extra, facts, stage=""):
             i = int(bad[0])
             raise Violation("node_range:" + ("box-not-in-leaf" if inbox[i] else "leaf-not-in-box") + stage,
                             "leaf %d range %r, point %r routed to %d" % (leaf, R.tolist(), Q64[i].tolist(), int(app[i])), facts)
+    for leaf, R, R0 in returned:
+        require(np.array_equal(np.asarray(R, dtype=np.float64), R0, equal_nan=True), "node_range:earlier-box-changed" + stage,
+                "the box returned for leaf %d changed while the boxes of other leaves were computed" % leaf, facts)
     return ref_leaves
 
 
 def check_tree(case):
     model, X = _fit_tree(case)
-    facts = dict(kind=case["kind"], d=int(X.shape[1]))
+    facts = dict(kind=case["kind"], d=int(X.shape[1]), share_parents=bool(case.get("share_parents")))
     ref_leaves = _check_model(model, X, case["q"], facts)
     t = model.tree_
     nl = len(ref_leaves)
@@ -233,6 +241,7 @@ def _tree_cases(draw, tier="quick"):
     return dict(X=X, y=y, kind=kind, max_depth=draw(st.integers(1, 6)), min_samples_leaf=draw(st.integers(1, 3)),
                 rs=draw(st.integers(0, 5)), splitter=draw(st.sampled_from(["best", "random"])), q=q,
                 nan_cells=draw(st.lists(st.tuples(st.integers(0, 79), st.integers(0, 4)).map(list), min_size=1, max_size=6)) if draw(st.integers(0, 5)) == 0 else [],
+                share_parents=draw(st.booleans()),
                 max_leaf_nodes=draw(st.sampled_from([None, None, 3, 5, 8, 12])), refit=draw(st.sampled_from(["mirror", "mirror", "reverse-target", "prefix"])))
 
 
